@@ -1,3 +1,13 @@
-from txtar_common import run
+from txtar_common import run, TXTAR_LEVEL
+
+
 def check(ctx):
     return run(ctx, "C14")
+
+
+REGISTRY = dict(
+    category="model_checking", design_ref="DESIGN.md section 3 C14",
+    text=TXTAR_LEVEL + " NeedsQuote is defined from the parser in the specification (TLC proves 'contains a marker line' = "
+         "'changes the parse' on every state) and the real NeedsQuote/Quote/Unquote are judged against the real parser and the specification.",
+    note="trusted: TLC, Txtar.tla, the Go driver; UTF-8 validity is outside the ASCII alphabets (only exercised by random inputs)",
+    technique="TLA+ reference semantics model-checked by TLC; TLC-generated cases replayed into NeedsQuote/Quote/Unquote; real traces validated by TLC")
